@@ -12,4 +12,19 @@ let handle (s : Sexp.t) : string =
       outcome_to_string false (op_exec powf_stub (binop_of_string name) (val_of_sexp a) (val_of_sexp b))
   | L [A "unop"; A name; a] ->
       outcome_to_string false (unop_exec (unop_of_string name) (val_of_sexp a))
+  | L [A "at"; v; i] -> outcome_to_string false (at_exec (val_of_sexp v) (val_of_sexp i))
+  | L [A "len"; v] ->
+      (match len_exec (val_of_sexp v) with
+       | Ok n -> "ok (i " ^ string_of_z n ^ ")" | Err e -> "err " ^ err_name e
+       | Panic -> "!panic" | OutOfFuel -> "!fuel")
+  | L [A "slice"; v; a; b; c] ->
+      let o = function A "none" -> None | x -> Some (val_of_sexp x) in
+      outcome_to_string false (slice_exec (val_of_sexp v) (o a) (o b) (o c))
+  | L [A "slyce"; A n; a; b; c] | L [A "pyslice"; A n; a; b; c] ->
+      let o = function A "none" -> None | A x -> Some (z_of_string x) | _ -> raise (Bad "idx") in
+      let f = (match s with L (A "slyce" :: _) -> slyce_indices | _ -> py_slice) in
+      "(" ^ String.concat " " (List.map string_of_z (f (z_of_string n) (o a) (o b) (o c))) ^ ")"
+  | L [A "has-type"; v; t] -> bool_to_string (has_type (val_of_sexp v) (ty_of_sexp t))
+  | L [A "untyped"; v] -> val_to_string false (val_of_sexp v)
+  | L [A "wf-val"; v] -> bool_to_string (wf_val (val_of_sexp v))
   | _ -> raise (Bad "unknown command")
